@@ -142,7 +142,8 @@ class C10(Check):
                 ['lp/ctx', 'lp/ctx+inv', 'lp/ctx+none', 'lpq/ctx', 'lpq/ctx+inv', 'lp/basic', 'lp/basic+inv', 'lpq/basic'],
                 ['kw/ctx+ph', 'cb/ctx+cb1', 'cb/ctx+cbkw', 'kw/ctx+noph', 'kw/basic+ph', 'cb/basic+cb1', 'kw/ctx+pp'],
                 ['calc/ctx', 'tr/ctx+calc', 'calc/ctx+pp', 'calc/ctx+kat', 'calc/basic', 'tr/basic+calc'],
-                ['inl/ctx+ph', 'inl/ctx+noph', 'inl/ctx+kat', 'inl/ctx+pp', 'inl/basic+ph', 'inl/basic+kat']]
+                ['inl/ctx+ph', 'inl/ctx+noph', 'inl/ctx+kat', 'inl/ctx+pp', 'inl/basic+ph', 'inl/basic+kat'],
+                ['pkg:a/ctx', 'pkg:b/ctx', 'pkg:a/basic', 'pkg:b/basic']]
 
     def _gen_instances_plan(self, rng):
         """'unaffected by other instances created in the process': a sequence of instances of RELATED configurations (same grammar
@@ -495,11 +496,10 @@ class C10(Check):
         # regressions of the fixed findings: the minimised plans + forced schedules kept under replays/fixed/
         import json
         out = []
-        for name in ('C10-lexer-callback-race', 'C10-sibling-from-grammar-priority-leak'):
-            path = os.path.join(core.VERIF, 'replays', 'fixed', name + '.json')
-            if os.path.exists(path):
-                d = json.load(open(path))
-                out.append((name, d['plan'], d['decisions']))
+        import glob
+        for path in sorted(glob.glob(os.path.join(core.VERIF, 'replays', 'fixed', 'C10-*.json'))):
+            d = json.load(open(path))
+            out.append((os.path.basename(path)[:-5], d['plan'], d.get('decisions') or None))
         return out
 
 
